@@ -65,3 +65,39 @@ Proof.
   - change (last ((acc + x) :: running (acc + x) (y :: l)) 0) with (last (running (acc + x) (y :: l)) 0).
     rewrite IH by discriminate. unfold sumq. cbn [fold_right]. ring.
 Qed.
+
+(** * the bin sizes of a whole histogram sum to the measure of the covered region *)
+Section Region.
+  Variable cosf : Qc -> Qc.
+  Variable pi : Qc.
+  Definition cos_table (bins : list bin) : list bin := map (fun b => (cosf (fst b), cosf (snd b))) bins.
+
+  Lemma axis_sizes_meas k bins : axis_sizes k pi bins (cos_table bins) = map (fun b => meas cosf pi k (fst b) (snd b)) bins.
+  Proof.
+    unfold axis_sizes, cos_table. induction bins as [|b bins IH]; cbn [map combine]; [reflexivity|].
+    rewrite IH. reflexivity.
+  Qed.
+
+  (** per-axis kinds [ks], per-axis consecutive bins [axes] starting at [starts]: total = product of the axis measures *)
+  Fixpoint region (ks : list akind) (axes : list (list bin)) (starts : list Qc) : Qc :=
+    match ks, axes, starts with
+    | k :: ks', ax :: axes', x :: starts' => meas cosf pi k x (end_of x ax) * region ks' axes' starts'
+    | _, _, _ => 1 end.
+  Fixpoint chains (axes : list (list bin)) (starts : list Qc) : Prop :=
+    match axes, starts with
+    | ax :: axes', x :: starts' => chain x ax /\ chains axes' starts'
+    | [], [] => True
+    | _, _ => False end.
+
+  Theorem sizes_sum_to_region : forall ks axes starts, length ks = length axes -> chains axes starts ->
+    sumq (outer (map (fun p => axis_sizes (fst (fst p)) pi (snd (fst p)) (snd p)) (combine (combine ks axes) (map cos_table axes)))) =
+    region ks axes starts.
+  Proof.
+    intros ks axes starts Hl Hc. rewrite outer_total.
+    revert axes starts Hl Hc. induction ks as [|k ks IH]; intros [|ax axes] starts Hl Hc; try discriminate.
+    - destruct starts; [reflexivity|contradiction].
+    - destruct starts as [|x starts]; [contradiction|]. destruct Hc as [Hc1 Hc2].
+      cbn [combine map fold_right fst snd region]. rewrite axis_sizes_meas, (measure_telescopes cosf pi k ax x Hc1).
+      rewrite (IH axes starts); [reflexivity|cbn in Hl; lia|exact Hc2].
+  Qed.
+End Region.
